@@ -77,6 +77,10 @@ def cls_is(ex, t, *quals):
     return Or(*opts)
 
 
+def tfield(t, name, default=False):
+    return t.fields.get(name, default)
+
+
 def tlen(t):
     return sym.seq_len(t.fields['txt'])
 
